@@ -46,6 +46,7 @@ pub fn dag_case_to_bytes(c: &DagCase) -> Vec<u8> {
       DagOp::RemNode { s } => { v.push(15); v.extend(s.to_le_bytes()); }
       DagOp::Q { kind, a, b } => { v.push(13 + (kind % 8) * 32); v.extend(a.to_le_bytes()); v.extend(b.to_le_bytes()); }
       DagOp::QAgain { k } => { v.push(13 + 16 + (k % 8) * 32); }
+      DagOp::Flip { .. } => {}
     }
   }
   v
